@@ -48,8 +48,11 @@ WHs == {"", "8:00-17:00", "0:00-24:00", "9:30-9:60", "18:05-23:59", "17:00-8:00"
 Methods == {"", "POST", "post", "GET", "get"}
 Rots == {"round-robin", "random", "weird"}
 
+Texts == {"ascii", "bmp", "astral"}      \* what the listener's strings are written in: ASCII only, with a character of the basic plane, with one beyond it
 Lsts == [kind : {"http", "smb"}, hosts : HostCfgs, portconn : PortConns, nheaders : 0..2, hosthdr : BOOLEAN, nuris : 0..2, proxy : BOOLEAN,
-         wh : WHs, method : Methods, rot : Rots, secure : BOOLEAN, kill : BOOLEAN]
+         wh : WHs, method : Methods, rot : Rots, secure : BOOLEAN, kill : BOOLEAN, text : Texts]
+(* the character is written symbolically here; the harness puts the real character in and names what the reader finds the same way *)
+Sfx(l) == CASE l.text = "bmp" -> "<U+0416>" [] l.text = "astral" -> "<U+1F680>" [] OTHER -> ""
 
 (* working hours: X AAAAA BBBBBB CCCCC DDDDDD  (enabled, start hour, start minute, end hour, end minute) *)
 Pack(sh, sm, eh, em) == 4194304 + sh * 131072 + sm * 2048 + eh * 64 + em
@@ -76,15 +79,15 @@ Encodable(l) ==
 
 LstFields(l) ==
     IF l.kind = "smb"
-    THEN [kind |-> "smb", pipe |-> "\\\\.\\pipe\\verifpipe", kill |-> IF l.kill THEN 1 ELSE 0, wh |-> WHValue(l.wh)]
+    THEN [kind |-> "smb", pipe |-> "\\\\.\\pipe\\verifpipe" \o Sfx(l), kill |-> IF l.kill THEN 1 ELSE 0, wh |-> WHValue(l.wh)]
     ELSE [kind |-> "http", kill |-> IF l.kill THEN 1 ELSE 0, wh |-> WHValue(l.wh), method |-> "POST",
           rot |-> IF l.rot = "round-robin" THEN 0 ELSE 1,
           hosts |-> [i \in 1..Len(HostList(l)) |-> <<HostList(l)[i][1], IF HostList(l)[i][2] = -1 THEN DefaultPort(l) ELSE HostList(l)[i][2]>>],
-          secure |-> IF l.secure THEN 1 ELSE 0, ua |-> "VerifUA/1.0",
-          headers |-> (IF l.nheaders = 0 THEN <<"Content-type: */*">> ELSE [i \in 1..l.nheaders |-> IF i = 1 THEN "X-One: 1" ELSE "X-Two: b: c"])
-                      \o (IF l.hosthdr THEN <<"Host: front.example">> ELSE <<>>),
-          uris |-> IF l.nuris = 0 THEN <<"/">> ELSE [i \in 1..l.nuris |-> IF i = 1 THEN "/a" ELSE "/b?x=1"],
-          proxy |-> IF l.proxy THEN <<"http://proxy.example:3128", "puser", "ppass">> ELSE <<>>]
+          secure |-> IF l.secure THEN 1 ELSE 0, ua |-> "VerifUA/1.0" \o Sfx(l),
+          headers |-> (IF l.nheaders = 0 THEN <<"Content-type: */*">> ELSE [i \in 1..l.nheaders |-> IF i = 1 THEN "X-One: 1" \o Sfx(l) ELSE "X-Two: b: c"])
+                      \o (IF l.hosthdr THEN <<"Host: front.example" \o Sfx(l)>> ELSE <<>>),
+          uris |-> IF l.nuris = 0 THEN <<"/">> ELSE [i \in 1..l.nuris |-> IF i = 1 THEN "/a" \o Sfx(l) ELSE "/b?x=1"],
+          proxy |-> IF l.proxy THEN <<"http://proxy.example:3128", "puser" \o Sfx(l), "ppass">> ELSE <<>>]
 
 -----------------------------------------------------------------------------
 VARIABLES opt, lst, last, hist
@@ -92,7 +95,7 @@ vars == <<opt, lst, last, hist>>
 FixedOpt == [tech |-> "Ekko", gadget |-> "jmp rbx", stack |-> TRUE, load |-> "RtlCreateTimer", alloc |-> "Win32", exec |-> "Native/Syscall", syscall |-> TRUE,
              amsi |-> "Hardware breakpoints", sleep |-> "2", jitter |-> "15"]
 FixedLst == [kind |-> "http", hosts |-> "two", portconn |-> "", nheaders |-> 1, hosthdr |-> TRUE, nuris |-> 2, proxy |-> TRUE, wh |-> "8:00-17:00",
-             method |-> "POST", rot |-> "random", secure |-> TRUE, kill |-> TRUE]
+             method |-> "POST", rot |-> "random", secure |-> TRUE, kill |-> TRUE, text |-> "astral"]
 Init == /\ ((opt \in Opts /\ lst = FixedLst) \/ (opt = FixedOpt /\ lst \in Lsts))
         /\ last = [op |-> "none"] /\ hist = <<>>
 Patch == /\ hist = <<>>
